@@ -116,7 +116,7 @@ def histories(tier, seed, variant="plain"):
         H.append(hist("api:loop", "none", out=1))
         H.append(hist("api:sieve", "gen", 2, rep=2))
         # jcall/jret through a variadic prototype (per-insn call data of the -O0 generator)
-        H.append(hist("scanstr:jcall", LINKS[1 + seed % 3], 0))
+        H.append(hist("scanstr:jcall", "gen", 0))        # gen: `run` is generated at link time (it is never called)
         H.append(hist("scanstr:jcall", LINKS[1 + (seed + 1) % 3], 1 + seed % 3))
         # a call of an external function with 70 arguments, interpreted and generated
         H.append(hist("scanstr:manyargs", "interp"))
@@ -146,12 +146,19 @@ def histories(tier, seed, variant="plain"):
                     H.append(hist(s, l, o, out=(n + seed) % 2))
             H.append(hist(s, LINKS[1 + (n + seed) % 3], 2, rep=3))
         # the repository's small C tests: compile, load, link, generate (not executed)
-        ctests = sorted(glob.glob(os.path.join(vlib.REPO, "c-tests", "new", "*.c")))
+        # (inputs with an .expectrc file are expected to be rejected by the compiler: not error-free)
+        ctests = [c for c in sorted(glob.glob(os.path.join(vlib.REPO, "c-tests", "new", "*.c")))
+                  if not os.path.exists(c + ".expectrc")]
         for i, c in enumerate(ctests):
             k = i + seed
             if k % (6 if variant == "asan" else 2) != 0:
                 continue     # 60% of all events come from these inputs: a seed-rotated half (asan: sixth) per run
             H.append(hist("c2m:" + c, (["none"] + LINKS)[k % 5], k % 4, run=0, out=(k // 5) % 2))
+    if variant == "plain":
+        # The interpreted 70-argument call writes behind a heap block on trees with the `call` defect
+        # (finding asan:heap-buffer-overflow:call).  ASan stops at that write; the uninstrumented build would go on
+        # with a corrupted heap and fail later in unrelated, irreproducible ways, so only the asan variant runs it.
+        H = [h for h in H if not ("scanstr:manyargs" in h and "link=interp" in h)]
     return H
 
 
@@ -497,9 +504,6 @@ def pack(units):
             cur, n = [], 0
         cur.append(u)
         n += len(u.events)
-        if not u.x.complete:      # nothing may follow an execution without Reset in the same file
-            files.append(cur)
-            cur, n = [], 0
     if cur:
         files.append(cur)
     return files
@@ -536,7 +540,13 @@ class Validator:
                     self.ck.violation(key, "", None)      # records the KNOWN-FINDING hit, writes nothing
         x.tev = tev                       # exactly what TLC sees (diagnosis replays this, not a later rewriting)
         sh = shard(tev)
-        return [Unit(x, s, i, len(sh)) for i, s in enumerate(sh)]
+        if not x.complete:
+            # cut short by a fault: every shard is a prefix; {"e":"Cut"} lets the next execution start afresh
+            # (the shard holding the fault event is rejected at that event before the Cut is reached)
+            for s in sh:
+                if s:
+                    s.append(({"e": "Cut"}, s[-1][1]))
+        return [Unit(x, s, i, len(sh)) for i, s in enumerate(sh) if s]
 
     def run_files(self, files):
         """files: list of unit lists.  Returns list of (units, matched) for rejected files."""
@@ -839,6 +849,9 @@ def run(tier, hist_override=None, variants=None):
             oos[c["summary"]] += 1
             continue
         if any(k == key for k, _, _ in ck.violations):
+            continue
+        if ck.findings.is_known(PROP, key):
+            ck.violation(key, "", None)     # records the KNOWN-FINDING hit
             continue
         # confirm once (rule 5) before reporting
         again = record(exes[c["variant"]], [c["history"]], "confirm-%s" % c["variant"])
